@@ -781,6 +781,25 @@ func (env *SpecEnv) call(x *ast.CallExpr) Value {
 	case *ast.SelectorExpr:
 		if id, ok := f.X.(*ast.Ident); ok && env.lookupLocal(id.Name) == nil && env.vars[id.Name] == nil {
 			if p := env.ex.P.importedPkg(env.pkg, id.Name); p != nil {
+				// a specification macro of the imported package, evaluated in that package
+				if m := env.ex.P.macros[p.Path()+":"+f.Sel.Name]; m != nil {
+					if len(x.Args) != len(m.Params) {
+						specErr("macro %s takes %d arguments", m.Name, len(m.Params))
+					}
+					if env.macroDepth > 8 {
+						specErr("macro expansion too deep at %s", m.Name)
+					}
+					n := *env
+					n.macroDepth++
+					n.pkg = p
+					n.vars = map[string]Value{}
+					for i, a := range x.Args {
+						n.vars[m.Params[i]] = env.eval(a)
+					}
+					v := n.eval(m.Body)
+					env.skolems = append(env.skolems, n.skolems[len(env.skolems):]...)
+					return v
+				}
 				fn = env.ex.P.funcByName(p, f.Sel.Name)
 				if fn == nil {
 					specErr("unknown function %s.%s", id.Name, f.Sel.Name)
